@@ -94,6 +94,14 @@ m("C12-vec-fr-guard-off", UT, "    if len > (input.len() - 8) / el_size {", "   
 m("C12-signal-len-guard-off-by-prefix", PROTO, "    if signal_len > serialized.len() - all_read {\n        return Err(Report::msg(\"signal length exceeds input data\"));\n    }\n    let signal: Vec<u8> = serialized[all_read..all_read + signal_len].to_vec();\n\n    let merkle_proof", "    if signal_len > serialized.len() {\n        return Err(Report::msg(\"signal length exceeds input data\"));\n    }\n    let signal: Vec<u8> = serialized[all_read..all_read + signal_len].to_vec();\n\n    let merkle_proof", "C12")
 m("C12-binary-check-weakened", PROTO, "    if identity_path_index.iter().any(|direction| *direction > 1) {", "    if identity_path_index.iter().any(|direction| *direction > 2) {", "C12")
 
+# ---- C01
+m("C01-index-masked", PROTO, "    let merkle_proof = tree.proof(id_index)?;", "    let merkle_proof = tree.proof(id_index & 0x7ffff)?;", "C01")
+m("C01-values-from-other-witness", PUB, "        let (rln_witness, _) = deserialize_witness(&serialized_witness)?;\n        let proof_values = proof_values_from_witness(&rln_witness)?;\n\n        let proof = generate_proof(&self.proving_key, &rln_witness, &self.graph_data)?;", "        let (rln_witness, _) = deserialize_witness(&serialized_witness)?;\n        let proof_values = proof_values_from_witness(&rln_witness)?;\n        let (rln_witness, _) = deserialize_witness(&serialize_witness(&rln_witness)?)?;\n\n        let proof = generate_proof(&self.proving_key, &rln_witness, &self.graph_data)?;", "C01")
+m("C01-vk-from-bundled", PUB, "        let proving_key = zkey_from_raw(&zkey_vec)?;\n        let verification_key = proving_key.0.vk.to_owned();\n\n        let mut tree_config_vec", "        let proving_key = zkey_from_raw(&zkey_vec)?;\n        let verification_key = zkey_from_folder().0.vk.to_owned();\n\n        let mut tree_config_vec", "C01")
+m("C01-signal-truncated", PROTO, "    let x = hash_to_field(&signal);\n\n    Ok((\n        RLNWitnessInput {\n            identity_secret,\n            path_elements,", "    let x = hash_to_field(&signal[..signal.len().min(1 << 16)]);\n\n    Ok((\n        RLNWitnessInput {\n            identity_secret,\n            path_elements,", "C01")
+m("C01-limit-id-swapped-inputs", PROTO, "        (\"userMessageLimit\", vec![rln_witness.user_message_limit]),\n        (\"messageId\", vec![rln_witness.message_id]),", "        (\"userMessageLimit\", vec![rln_witness.message_id]),\n        (\"messageId\", vec![rln_witness.user_message_limit]),", "C01")
+m("C01-output-order", PUB, "        proof.serialize_compressed(&mut output_data)?;\n        output_data.write_all(&serialize_proof_values(&proof_values))?;\n\n        Ok(())\n    }\n\n    /// Generate RLN Proof using a witness calculated from outside zerokit\n    ///\n    /// output_data is  [", "        output_data.write_all(&serialize_proof_values(&proof_values))?;\n        proof.serialize_compressed(&mut output_data)?;\n\n        Ok(())\n    }\n\n    /// Generate RLN Proof using a witness calculated from outside zerokit\n    ///\n    /// output_data is  [", "C01")
+
 
 def main():
     os.makedirs(OUT, exist_ok=True)
